@@ -1,6 +1,6 @@
 (* C14 — Optic transformation: well-typed for every diagram; structural characterisation of the optic image of an operation batch (disjoint union of the forward and reverse images glued along the residuals; monoidal on batches); every generator's reverse derivative for ALL inputs; chain rule. PARTIAL: the derivative statement for every circuit (C14Thm.C14_full clause 1-2) is not a theorem — decided on generated circuits by the correspondence check and an independent reverse-mode oracle.
    Property theorems only: each statement is spelled out and closed by [exact] of a lemma proved in Proofs/. *)
-From OHG Require Import Proofs.C14Thm Proofs.C14bThm Proofs.C14cPlain Proofs.C14cBatch Proofs.C14cThm Proofs.HarnessThm Proofs.C14dFunct Proofs.C14dPres Proofs.C14fNormal.
+From OHG Require Import Proofs.C14Thm Proofs.C14bThm Proofs.C14cPlain Proofs.C14cBatch Proofs.C14cThm Proofs.HarnessThm Proofs.C14dFunct Proofs.C14dPres Proofs.C14fNormal Proofs.C14eInd Proofs.C14eDeriv.
 
 Theorem C14_type : forall B : Prims.Backend,
        Backend.BackendOK B ->
@@ -509,6 +509,42 @@ Theorem C14_every_circuit_denotable : forall s : Hyper.ohg nat nat,
          denotes s n m f J.
 Proof. exact (@C14fNormal.C14_every_circuit_denotable). Qed.
 
+Theorem C14_derivative_all : forall (s : Hyper.ohg nat nat) (n m : nat) (f : list BinNums.Z -> list BinNums.Z)
+         (J : list BinNums.Z -> list (list BinNums.Z)),
+       denotes s n m f J -> derivative_statement_u64 s n m f J.
+Proof. exact (@C14eDeriv.C14_derivative_all_closed). Qed.
+
+Theorem C14_derivative_all_wrapped : forall (s : Hyper.ohg nat nat) (n m : nat) (f : list BinNums.Z -> list BinNums.Z)
+         (J : list BinNums.Z -> list (list BinNums.Z)),
+       denotes s n m f J -> derivative_statement_wrapped s n m f J.
+Proof. exact (@C14eDeriv.C14_derivative_all_wrapped_closed). Qed.
+
+Theorem C14_derivative_every_circuit : forall s : Hyper.ohg nat nat,
+       poly_circuit s ->
+       Hyper.ohg_is_monogamous s = Res.Ok true ->
+       Graph.ohg_is_acyclic Prims.VecBackend s = Res.Ok true ->
+       exists
+         (n m : nat) (f : list BinNums.Z -> list BinNums.Z) (J : list BinNums.Z -> list (list BinNums.Z)),
+         denotes s n m f J /\ derivative_statement_u64 s n m f J /\ derivative_statement_wrapped s n m f J.
+Proof. exact (@C14eDeriv.C14_derivative_every_circuit). Qed.
+
+Theorem C14_full_u64 : C14_full_u64.
+Proof. exact (@C14eDeriv.C14_full_u64_holds). Qed.
+
+Theorem C14_unwrapped_inputs_refuted : denotes s_id1 1 1 (fun x : list BinNums.Z => x) (fun _ : list BinNums.Z => idmat 1) /\
+       (exists d : Hyper.ohg nat nat,
+          poly_adapted_strict s_id1 = Res.Ok d /\
+          Graph.eval Prims.VecBackend BinNums.Z0 Dispatch.apply_sig d
+            ((BinNums.Zneg BinNums.xH :: nil) ++ BinNums.Zpos (BinNums.xI (BinNums.xO BinNums.xH)) :: nil) =
+          Res.Ok (Some (BinNums.Zneg BinNums.xH :: BinNums.Zpos (BinNums.xI (BinNums.xO BinNums.xH)) :: nil))) /\
+       List.map Dispatch.wrap
+         ((BinNums.Zneg BinNums.xH :: nil) ++
+          tmulv 1 (idmat 1) (BinNums.Zpos (BinNums.xI (BinNums.xO BinNums.xH)) :: nil)) =
+       BinInt.Z.sub Dispatch.two64 (BinNums.Zpos BinNums.xH)
+       :: BinNums.Zpos (BinNums.xI (BinNums.xO BinNums.xH)) :: nil /\
+       ~ derivative_statement s_id1 1 1 (fun x : list BinNums.Z => x) (fun _ : list BinNums.Z => idmat 1).
+Proof. exact (@C14eDeriv.C14_derivative_unwrapped_refuted). Qed.
+
 Print Assumptions C14_type.
 Print Assumptions C14_adapt_type.
 Print Assumptions C14_adapted_type.
@@ -545,3 +581,8 @@ Print Assumptions C14_general_preserves_composition.
 Print Assumptions C14_general_preserves_tensor.
 Print Assumptions C14_general_respects_iso.
 Print Assumptions C14_every_circuit_denotable.
+Print Assumptions C14_derivative_all.
+Print Assumptions C14_derivative_all_wrapped.
+Print Assumptions C14_derivative_every_circuit.
+Print Assumptions C14_full_u64.
+Print Assumptions C14_unwrapped_inputs_refuted.
